@@ -23,7 +23,7 @@ def load_known(pid):
         return []
     with open(path) as fh:
         data = json.load(fh)
-    return [f for f in data.get("findings", []) if f.get("property") == pid and f.get("status", "open") == "open"]
+    return [f for f in data.get("findings", []) if (f.get("property") == pid or pid in (f.get("also") or [])) and f.get("status", "open") == "open"]
 
 
 def load_lock(pid):
@@ -311,6 +311,13 @@ def decide(pid, prop, tier, seed, results, extra, t0, args):
         rc = 2
     for u in undecided:
         print(f"UNDECIDED property={pid} obligation={u['obligation']} verdict={u['verdict']} {str(u.get('note') or '')[:300]}", file=sys.stderr)
+    # trusted base: every axiom schema used by this run is audited against the real library
+    from . import audits as _audits
+
+    audit = _audits.run(axioms, seed or 1)
+    for a in audit["failed"]:
+        print(f"ENGINE-ERROR property={pid} axiom disagrees with the library: {a}", file=sys.stderr)
+        rc = 3 if rc != 1 else 1
     if ob_total == 0 and rc == 0:
         print(f"ENGINE-ERROR property={pid} zero obligations generated", file=sys.stderr)
         rc = 3
@@ -337,6 +344,7 @@ def decide(pid, prop, tier, seed, results, extra, t0, args):
             "paths_explored": n_paths,
             "functions_under_contract": functions,
             "trusted_base": sorted(axioms) + list(getattr(prop, "TRUSTED", [])),
+            "trusted_base_audit": audit,
             "inlined_or_dropped": sorted(f"{k}: {t}" for k, t in notes),
             "bounded_standins": standins,
             "all_parts_deductive": all_deductive,
